@@ -17,7 +17,10 @@ ENGINE_TEXT = ("TLA+/TLC design model (MC_Sticky) + TLC-generated Yata histories
 TRACE = ("Trace_Sticky", "Trace_Sticky.cfg")
 # ./check replay <file>: (harness binary, args builder, trace module, cfg)
 REPLAY = ("yx", lambda s, t: ["yata-run", "--in", s, "--out", t, "--seed", str(vlib.seed())], TRACE[0], TRACE[1])
-DESIGN = {"quick": [("MC_Sticky", "D_sticky.cfg")], "thorough": [("MC_Sticky", "D_sticky.cfg"), ("MC_Sticky", "D_sticky_nest.cfg")]}
+# MC_StickyWide: texts with surrogate pairs (two elements per character), anchors on either element of a pair
+DESIGN = {"quick": [("MC_Sticky", "D_sticky.cfg"), ("MC_StickyWide", "D_sticky_wide2.cfg")],
+          "thorough": [("MC_Sticky", "D_sticky.cfg"), ("MC_Sticky", "D_sticky_nest.cfg"), ("MC_StickyWide", "D_sticky_wide2.cfg"),
+                       ("MC_StickyWide", "D_sticky_wide3.cfg")]}
 # generator groups of MC_Yata whose histories are extended
 # (group, n: the flat text history idx is also replayed on the root array "a" when idx % n == 0 and on the XML fragment "x"
 #  (child list of elements / XML texts) when idx % n == 1 (0 = text only), cap on the number of histories (seeded sample))
